@@ -543,7 +543,25 @@ pub fn leg_http(thorough: bool, seed: u64) -> Value {
             if *lname != "none" && *lname != "one" {
                 bad.truncate(6);
             }
-            for (name, r, exp) in bad {
+            // the same refused requests under a well-formed client id the server has never seen: nothing may be created
+            let mut bad2: Vec<(&str, ReqSpec, &[u16])> = vec![];
+            for (name, r, exp) in bad.iter() {
+                if is_allowed(l) && list.is_none() {
+                    let newcomer = Uuid::new_v4();
+                    let mut r2 = r.clone();
+                    r2.client_id = Some(newcomer.to_string().into_bytes());
+                    let tr = vec![format!("allow-list={lname}; {name}; client id never seen before")];
+                    if let Ok(d) = call(&app, &r2).await {
+                        ctx.common(&d, &r2, &tr, "malformed-newcomer");
+                        let after = absfn::via_api(&Shared(mem.clone()), newcomer, &universe).unwrap();
+                        if !(400..500).contains(&d.status) || after.exists {
+                            ctx.v(&["C15", "C18"], format!("{name} from a never-seen client: answered {} (expected 4xx); a client record was created: {}", d.status, after.exists), &r2, &tr);
+                        }
+                    }
+                }
+                bad2.push((*name, r.clone(), *exp));
+            }
+            for (name, r, exp) in bad2 {
                 let before = snapshot_all(&mem);
                 let tr = vec![format!("allow-list={lname}; {name}")];
                 let d = match call(&app, &r).await {
